@@ -460,7 +460,7 @@ def r2_raw_writers_bounded(ck, P, rows=True):
 
 
 
-def _bounded_by_height(g, call, o):
+def _bounded_by_height(g, call, o, _nofallback=False):
     """is the row value o passed at `call` clamped against bits.height?  Either it is (a rounding of) a clamp phi whose selecting
     comparison tests the phi's own unclamped incoming value against bits.height, with nothing but constants added after the clamp,
     or the call is guarded by a comparison of that same value with bits.height."""
@@ -494,12 +494,27 @@ def _bounded_by_height(g, call, o):
                     cc, pred, ops = g.cond(t.a[0])
                     if cc is not None and cc.op == 'icmp' and ('field', 'bits_image.height') in g.atoms(t.a[0]):
                         # the compared value is the raw incoming (possibly shifted to integer pixels)
-                        for q in ops:
+                        for qi, q in enumerate(ops):
                             y = g.v(g.strip_casts(q))
                             if y is not None and y.op in ('ashr', 'lshr', 'sdiv'):
                                 q = y.a[0]
                             if g.strip_casts(q) == g.strip_casts(raw):
-                                return True
+                                # the clamp must be taken whenever row >= height: `row >= height` on the edge into the clamp, i.e. no row equal
+                                # to height slips through (a strict `>` lets the first row below the image be written)
+                                succs = t.d['succ']
+                                into_clamp_true = (succs[0] == src_bb) or (p != src_bb and succs[0] in (src_bb,)) or (p == src_bb)
+                                if p != src_bb:
+                                    into_clamp_true = succs[0] == src_bb
+                                else:
+                                    into_clamp_true = None
+                                pr = pred if qi == 0 else {'sge': 'sle', 'sgt': 'slt', 'sle': 'sge', 'slt': 'sgt', 'uge': 'ule', 'ugt': 'ult', 'ule': 'uge', 'ult': 'ugt'}.get(pred, pred)
+                                if into_clamp_true is None:
+                                    return True
+                                exact = (pr in ('sge', 'uge') and into_clamp_true) or (pr in ('slt', 'ult') and not into_clamp_true)
+                                if exact:
+                                    return True
+    if _nofallback:
+        return False
     # guarded by a comparison of the same value
     vals = {tuple(g.strip_casts(['v', x.i])) for x in chain} | {tuple(g.strip_casts(o))}
     for br, succ in g.guard_edges(call.bb.id):
@@ -507,10 +522,19 @@ def _bounded_by_height(g, call, o):
             continue
         cc, pred, ops = g.cond(br.a[0])
         if cc is not None and cc.op == 'icmp' and ('field', 'bits_image.height') in g.atoms(br.a[0]):
-            for q in ops:
+            for qi, q in enumerate(ops):
                 y = g.v(g.strip_casts(q))
                 if y is not None and y.op in ('ashr', 'lshr', 'sdiv'):
                     q = y.a[0]
-                if tuple(g.strip_casts(q)) in vals:
+                # the other side must be the height itself (possibly converted to fixed point), not a value that merely was clamped with it
+                other = ops[1 - qi] if len(ops) == 2 else None
+                oy = g.v(g.strip_casts(other)) if other is not None and other[0] == 'v' else None
+                if oy is not None and oy.op in ('shl', 'mul') and oy.a:
+                    oy = g.v(g.strip_casts(oy.a[0]))
+                is_height = oy is not None and oy.op == 'load' and g.last_field(g.path(oy.a[0])) == 'bits_image.height'
+                # ... or a value that is itself clamped exactly against the height (t <= b with b clamped)
+                if not is_height and other is not None and other[0] == 'v':
+                    is_height = _bounded_by_height(g, call, other, _nofallback=True)
+                if tuple(g.strip_casts(q)) in vals and is_height:
                     return True
     return False
